@@ -170,26 +170,26 @@ func (c *Ctx) ProcessModel(rule string) *Model {
 }
 
 type mstate struct {
-	st     int64
-	pkt    int64
-	pktSet bool
-	excl   map[int64]bool
-	env    map[ssa.Value]constant.Value
-	cb     map[string]bool // callback field non-nil decisions
+	st       int64
+	pkt      int64
+	pktSet   bool
+	excl     map[int64]bool
+	env      map[ssa.Value]constant.Value
+	cb       map[string]bool // callback field non-nil decisions
 	checkRes map[ssa.Value]*Effect
-	path   *MPath
-	visited map[visitKey]int
-	depth  int
-	stack  []*frame
+	path     *MPath
+	visited  map[visitKey]int
+	depth    int
+	stack    []*frame
 }
 
 // frame: one inlined first-party helper (A3 inlines helpers that touch protocol state, depth <= 2).
 type frame struct {
-	fn      *ssa.Function
-	call    *ssa.Call
-	bind    map[*ssa.Parameter]ssa.Value
-	retBlk  *ssa.BasicBlock
-	retIdx  int
+	fn     *ssa.Function
+	call   *ssa.Call
+	bind   map[*ssa.Parameter]ssa.Value
+	retBlk *ssa.BasicBlock
+	retIdx int
 }
 
 type visitKey struct {
@@ -234,16 +234,16 @@ func (s *mstate) clone() *mstate {
 }
 
 type modelBuilder struct {
-	c         *Ctx
-	m         *Model
-	fn        *ssa.Function
-	stateF    *types.Var
-	rwcF      *types.Var
-	gwType    *types.Named
-	loopHead  *ssa.BasicBlock
-	readCall  *ssa.Call
-	out       []*MPath
-	problems  map[string]bool
+	c             *Ctx
+	m             *Model
+	fn            *ssa.Function
+	stateF        *types.Var
+	rwcF          *types.Var
+	gwType        *types.Named
+	loopHead      *ssa.BasicBlock
+	readCall      *ssa.Call
+	out           []*MPath
+	problems      map[string]bool
 	pendingInline *ssa.Function
 }
 
@@ -922,4 +922,3 @@ func (b *modelBuilder) interesting(f *ssa.Function, seen map[*ssa.Function]bool)
 	})
 	return res
 }
-
